@@ -14,7 +14,8 @@ EXPLANATION = (
     "the seed (from public value and context string), the index and both points of every pair; (R3) the proof "
     "nonce is one fresh OS-generator draw per new_batch call and the response is nonce - challenge * key; (R4) "
     "the public value is base key + per-tag key looked up by the tag, a missing tag gives an error.  (R5) the size guards in front of the public-key and proof decoders admit the largest honest encoding (point + count + 256 x (tag, point) = 8488 bytes; two scalars = 64 bytes); (R6, feature key-sync) import replaces the whole key state unconditionally with the imported values (C11.R4), so a synced server never proves over a key its public key does not commit to.  NOT decided: "
-    "completeness and soundness of the DLEQ proof system (algebra, random-oracle argument).")
+    "completeness and soundness of the DLEQ proof system (algebra, random-oracle argument)."
+    "  Also (R7 = C10.R6 / C10.R4) the per-tag PRF tells sibling tags apart: two different generators for the two initial nodes, generator selected by the bit in every descent - otherwise a proof for tag 2k verifies under tag 2k+1.")
 ASSUMPTIONS = ["Strobe-based hash_to_scalar is a random oracle; curve arithmetic is correct"]
 TRUSTED = []
 
@@ -252,3 +253,10 @@ def run(ctx):
     from .c11 import export_import
     export_import(ctx, "C13.R6")
     ctx.floor("C13.R6", 6)
+    # ---- R7 different tags have different committed keys only if the per-tag PRF tells sibling tags apart: the two
+    #         initial tree nodes come from two different generators and every descent selects the generator by the bit
+    #         (C10.R6 / C10.R4 re-run) - otherwise a proof for tag 2k verifies under tag 2k+1
+    from . import c10
+    c10.initial_nodes(ctx, "C13.R7")
+    c10.descent_rules(ctx, "C13.R7")
+    ctx.floor("C13.R7", 7)
